@@ -223,9 +223,12 @@ class LogFile(BaseLogFile):
         Return sorted list of integers - the old logs' identifiers.
         """
         result = []
-        for name in glob.glob("%s.*" % self.path):
+        # The path itself may contain glob characters, and another log in the
+        # same directory may be named "<path>.<something>": only what follows
+        # "<path>." counts, and it has to be the identifier alone.
+        for name in glob.glob("%s.*" % glob.escape(self.path)):
             try:
-                counter = int(name.split(".")[-1])
+                counter = int(name[len(self.path) + 1 :])
                 if counter:
                     result.append(counter)
             except ValueError:
